@@ -79,6 +79,44 @@ def handle : Handler := fun j => do
             | some v => pairToJson (inv.apply p v f)).toArray)]
     pure (Json.mkObj [("dump", dumpTable m.map), ("noReinstall", dumpTable m.noReinstall),
                       ("applied", Json.arr (fwd.map pairToJson).toArray), ("inverse", invJ)])
+  | "manseq" =>
+    -- a sequence of operations on one live Manifest object
+    let mut m : Manifest := { product := ← jstrOpt j "product", version := ← jstrOpt j "version", deps := [] }
+    let mut mb : Manifest := { product := some (Str.ofString "other"), version := some (Str.ofString "9.9"), deps := [] }
+    let mut out : Array Json := #[]
+    let native ← jstr j "native"
+    let dump := fun (m : Manifest) => Json.mkObj [("product", ofStrOpt m.product), ("version", ofStrOpt m.version),
+                                                  ("deps", Json.arr (m.deps.map depToJson).toArray)]
+    for o in (← jarr j "ops") do
+      let k ← (← o.getObjVal? "op").getStr?
+      if k == "add" then
+        m := { m with deps := m.deps ++ [← depOfJson (← o.getObjVal? "dep")] }
+        out := out.push (dump m)
+      else if k == "reverse" then
+        m := m.reverse
+        out := out.push (dump m)
+      else if k == "roll" then
+        m := m.roll (← jint o "n")
+        out := out.push (dump m)
+      else if k == "getdep" then
+        let r := m.getDependency (← jstr o "product") (← jstrOpt o "version") (← jstrOpt o "flavor") (← jint o "which")
+        out := out.push (match r with | none => Json.null | some d => depToJson d)
+      else if k == "roundtrip" then
+        let wo : WriteOpts := { noOptional := ← jbool o "noOptional", flavor := ← jstrOpt o "flavor", native := native }
+        let text := write wo [] m
+        let into := (← (← o.getObjVal? "into").getStr?)
+        let sp ← jbool o "setproduct"
+        let reader : Manifest := if into == "live" then m else if into == "B" then mb
+          else { product := none, version := none, deps := [] }
+        match reader.readInto sp false text with
+        | .error e => out := out.push (Json.mkObj [("error", errName e)])
+        | .ok r =>
+          let written := dump m
+          if into == "live" then m := r
+          if into == "B" then mb := r
+          out := out.push (Json.mkObj [("written", written), ("before", dump reader), ("read", dump r)])
+      else throw s!"manseq: unknown op {k}"
+    pure (Json.mkObj [("out", Json.arr out)])
   | "tagseq" =>
     -- a sequence of operations on two live TaggedProductList objects A and B
     let mut ta := TagList.empty (← jstr j "tag") (← jstrOpt j "flavorA")
